@@ -40,9 +40,10 @@ type Thread struct {
 	done   bool
 
 	// pending operation (valid while parked)
-	kind string
-	obj  string
-	pred Pred
+	kind   string
+	obj    string
+	pred   Pred
+	prefer int // thread that naturally continues when this one blocks (pipe peer), -1 = none
 
 	PanicVal   any
 	PanicStack string
@@ -80,6 +81,7 @@ type Execution struct {
 	Stuck            bool // a thread did not reach its next point within the watchdog time
 	Diverged         string
 	Threads          []ThreadInfo
+	Handoffs         int64 // forced pipe hand-offs (no scheduling decision)
 	Collapsed        int64 // operations on non-preemptible objects that proceeded without yielding
 	UnmanagedTouches int64
 	UnmanagedSample  []string
@@ -222,7 +224,7 @@ type abandoned struct{}
 func spawn(name string, parent int, f func()) *Thread {
 	s := st
 	s.mu.Lock()
-	t := &Thread{ID: len(s.threads), Name: name, Parent: parent, resume: make(chan struct{}), kind: "start", obj: name}
+	t := &Thread{ID: len(s.threads), Name: name, Parent: parent, resume: make(chan struct{}), kind: "start", obj: name, prefer: -1}
 	s.threads = append(s.threads, t)
 	s.mu.Unlock()
 	reg := make(chan struct{})
@@ -296,6 +298,36 @@ func (t *Thread) Point(kind, obj string, pred Pred, preempt bool) {
 	}
 }
 
+// BlockPrefer is Point for an operation that yields only when it cannot proceed, naming the
+// thread that naturally continues while this one is blocked (the peer of a pipe): the
+// scheduler treats that thread as the continuation of the running one, so switching to a
+// third thread at this point costs a preemption (or, with Options.ForcedHandoff, is not
+// offered at all).
+func (t *Thread) BlockPrefer(kind, obj string, pred Pred, prefer int) {
+	if pred == nil || pred() {
+		collapsed.Add(1)
+		return
+	}
+	t.prefer = prefer
+	t.Point(kind, obj, pred, true)
+	t.prefer = -1
+}
+
+// LastChild returns the id of the most recently spawned unfinished child of t, or -1.
+func LastChild(t *Thread) int {
+	st.mu.Lock()
+	defer st.mu.Unlock()
+	for i := len(st.threads) - 1; i >= 0; i-- {
+		if o := st.threads[i]; o.Parent == t.ID && !o.done {
+			return o.ID
+		}
+	}
+	return -1
+}
+
+// Steps returns how many times the thread has been resumed so far.
+func (t *Thread) Steps() int { return t.steps }
+
 // Yield is an explicit, always enabled scheduling point (no-op outside managed threads).
 func Yield(kind, obj string) {
 	if t := CurQuiet(); t != nil {
@@ -308,6 +340,9 @@ type Options struct {
 	Choices  []int   // choices[i] is taken at point i; choice 0 afterwards
 	Expect   [][]int // optional: enabled sets recorded by an earlier execution; a difference while replaying is a divergence
 	MaxSteps int     // livelock horizon
+	// ForcedHandoff: when the running thread blocks on a pipe whose peer is enabled, the peer
+	// continues without a scheduling decision (the pair behaves like one coroutine).
+	ForcedHandoff bool
 }
 
 // HarnessError is the panic value for misuse (out-of-range choice).
@@ -352,14 +387,44 @@ func Run(o Options) *Execution {
 			break
 		}
 		sort.Slice(en, func(i, j int) bool { return en[i].ID < en[j].ID })
+		cont := last
+		if last >= 0 && last < len(ths) {
+			lt := ths[last]
+			lastEnabled := false
+			for _, t := range en {
+				if t.ID == last {
+					lastEnabled = true
+				}
+			}
+			if !lastEnabled && !lt.done && lt.prefer >= 0 {
+				cont = lt.prefer // the blocked thread's pipe peer continues in its place
+			}
+		}
 		runningEnabled := false
 		for i, t := range en {
-			if t.ID == last {
+			if t.ID == cont {
 				runningEnabled = true
 				copy(en[1:i+1], en[:i])
 				en[0] = t
 				break
 			}
+		}
+		if o.ForcedHandoff && runningEnabled && cont != last {
+			t := en[0]
+			x.Handoffs++
+			step--
+			t.pred = nil
+			t.resume <- struct{}{}
+			select {
+			case <-s.yielded:
+			case <-time.After(s.watchdog):
+				x.Stuck = true
+			}
+			if x.Stuck {
+				break
+			}
+			last = t.ID
+			continue
 		}
 		ids := make([]int, len(en))
 		for i, t := range en {
